@@ -61,13 +61,26 @@ pub fn expand_self<T: VisitableMut + Clone>(input: &T, to: &Type) -> T {
     input
 }
 
-/// The tokens of `input`, with the invisible groups that surround `macro_rules!` fragments turned into
-/// parentheses wherever they are nested in something larger.
+/// The tokens of `input`, with the invisible groups that surround `macro_rules!` expression fragments turned
+/// into parentheses wherever they are nested in something larger and their reading depends on it.
 ///
 /// rustc does not treat such a group as parentheses when it parses the output of a procedural macro:
-/// `$e * 2` with `$e = 1 + 2` would be read as `1 + 2 * 2`.
+/// `$e * 2` with `$e = 1 + 2` would be read as `1 + 2 * 2`. Fragments that are not such expressions
+/// (types, statements, paths, literals, calls, ..) are left alone.
 pub fn parenthesize_fragments(input: proc_macro2::TokenStream) -> proc_macro2::TokenStream {
     use proc_macro2::{Delimiter, Group, TokenStream, TokenTree};
+    fn depends_on_grouping(fragment: TokenStream) -> bool {
+        matches!(
+            syn::parse2::<syn::Expr>(fragment),
+            Ok(syn::Expr::Binary(_)
+                | syn::Expr::Unary(_)
+                | syn::Expr::Cast(_)
+                | syn::Expr::Range(_)
+                | syn::Expr::Assign(_)
+                | syn::Expr::Reference(_)
+                | syn::Expr::Closure(_))
+        )
+    }
     fn convert(input: TokenStream, nested: bool) -> TokenStream {
         let alone = !nested && input.clone().into_iter().count() == 1;
         input
@@ -75,7 +88,9 @@ pub fn parenthesize_fragments(input: proc_macro2::TokenStream) -> proc_macro2::T
             .map(|t| match t {
                 TokenTree::Group(g) => {
                     let delimiter = match g.delimiter() {
-                        Delimiter::None if !alone => Delimiter::Parenthesis,
+                        Delimiter::None if !alone && depends_on_grouping(g.stream()) => {
+                            Delimiter::Parenthesis
+                        }
                         d => d,
                     };
                     let mut new =
